@@ -552,6 +552,27 @@ err:
     return 0;
 }
 
+/* RFC 5802 5.1: ',' and '=' in the user name are sent as "=2C" and "=3D" */
+static char *_scram_escape_name(xmpp_ctx_t *ctx, const char *name)
+{
+    char *escaped, *e;
+
+    escaped = strophe_alloc(ctx, 3 * strlen(name) + 1);
+    if (!escaped)
+        return NULL;
+    for (e = escaped; *name; name++) {
+        if (*name == ',' || *name == '=') {
+            *e++ = '=';
+            *e++ = *name == ',' ? '2' : '3';
+            *e++ = *name == ',' ? 'C' : 'D';
+        } else {
+            *e++ = *name;
+        }
+    }
+    *e = '\0';
+    return escaped;
+}
+
 static int _make_scram_init_msg(struct scram_user_data *scram)
 {
     xmpp_conn_t *conn = scram->conn;
@@ -584,6 +605,12 @@ static int _make_scram_init_msg(struct scram_user_data *scram)
     }
 
     node = xmpp_jid_node(ctx, conn->jid);
+    if (!node) {
+        return -1;
+    }
+    message = _scram_escape_name(ctx, node);
+    strophe_free(ctx, node);
+    node = message;
     if (!node) {
         return -1;
     }
